@@ -114,7 +114,7 @@ def run(chk: Check, drv: Driver):
                 dims = tuple(sizes[i] for i in t.indexes)
                 ins[name] = (problems.random_input(rng, dims, rng.choice([0.0, 0.2, 0.5])), dims)
             cases.append((sizes, ins))
-        res = WORKER.run(pr.text, pr.fs, [ins for _, ins in cases], "llvm", timeout=60)
+        res = WORKER.run(pr.text, pr.fs, [ins for _, ins in cases], "llvm", timeout=240)
         if res[0] != "ok":
             chk.violation(f"real kernel {res[0]}: {res[1:3]}", pr.case(*cases[0]))
             continue
